@@ -367,6 +367,15 @@ class DetectReadsWritesCalls( DetectVarNames ):
         self.write.append( pair )
 
   def visit_AugAssign( self, node ):
+    if isinstance( node.target, ast.Name ) and not isinstance( node.op, (ast.MatMult, ast.LShift) ):
+      # t += 1 computes a new value and gives it the local name t, also
+      # when t stood for a signal: only @= and <<= write through a name
+      for alias in self.aliases.get( node.target.id, () ):
+        self.read.append( ( alias, [ node.target ] * ( 2*len(alias) + 2 ), None ) )
+      self.visit( node.value )
+      self._rebind( node.target, {} )
+      return
+
     self.current_op = node.op
     self.visit( node.target )
     self.current_op = None
